@@ -50,6 +50,9 @@ CHECKS = {
  "C20": ("exploration", "recording interceptors (enter/exit trace + visible edits of context metadata, request, reply, error) and recording stats handlers (fresh token per TagRPC) around real RPCs of every kind and outcome; trace/count oracle",
          "Server chains of length 1..6 (chained and single options), an optional client interceptor, 1..3 stats handlers per side, 4 RPC kinds x 7 outcomes incl. cancel, manual deadline, transport failure, failed open and a call on an already failed connection: exactly-once and nesting order of interceptors, propagation of each edit to the handler and the caller, exactly one Begin (first) and one End per RPC and handler with End.Error nil iff success on that side, every event tagged with the TagRPC context, one ConnBegin/ConnEnd per served connection.",
          "goat has a single client interceptor slot, so client chains >1 are not goat code; one RPC per case.", "DESIGN.md 2/C20"),
+ "C16": ("exploration", "runtime monitor: per-(source,destination) sequence equality on unique envelope ids at scripted peers around a real Proxy (credit-bounded), proto.Equal modulo routing fields, drop-counter hook; RPC workloads of C01/C02 through client-proxy-Demux-Serve; burst family with loss-accounting oracle",
+         "Uniquely numbered envelopes from 1..8 attached peers to attached, dial-on-demand, aliased, blocked and unknown destinations under 4 rewriting functions: exactly-once, in-order, unaltered (modulo ProxyRecord/ProxyNext/rewritten destination) delivery to the right peer with zero drops while <=12 are outstanding per destination; C01/C02 workloads through the proxy topology must pass their own oracles. Above the buffer, loss must be exactly what the drop hook counted (known finding F12), never reordering or duplication.",
+         "Real-time order between different sources is not constrained (not promised by the proxy); the burst finding is recorded in known_findings.json.", "DESIGN.md 2/C16"),
 }
 NOT_YET = "check not built yet in this round (runtime-monitoring design in DESIGN.md section 2); will be claimed once its monitor exists"
 
